@@ -279,9 +279,9 @@ def udpParse (raw : Bytes) : P Frame :=
   | .ok _ => .error .struct
   | .error e => .error e
 
-/-- tcp.py:580-611 `parse_options` with the sanity check `i + arr[i+1] > bound`: `bound = len(raw)` at HEAD (then this is
-`Packet.tcpParseOpts`, lemma `tcpParseOptsB_head`), `bound = self.hdr_len` after C15-4.  Everything that raises in here is
-caught by `tcp.parse` (`.fail`). -/
+/-- tcp.py:580-611 `parse_options` with the sanity check `i + arr[i+1] > bound`.  At HEAD `bound = len(raw)`: that is
+`Packet.tcpParseOpts` of C14, which `tcpParse` below calls for `cfg.tcpOptBound = false`; after repair C15-4
+`bound = self.hdr_len`.  Everything that raises in here is caught by `tcp.parse` (`.fail`). -/
 def tcpParseOptsB : Nat → Bytes → Nat → Nat → Nat → OptsRes
   | 0, _, _, _, _ => .fail
   | fuel+1, arr, hdrLen, bound, i =>
@@ -312,7 +312,8 @@ def tcpParse (cfg : Cfg) (raw : Bytes) : P Frame :=
     let off := offres / 16
     let res := offres % 16
     if off * 4 < 20 ∨ off * 4 > dlen then pure (.unparsed "tcp" raw) else
-    match tcpParseOptsB (off * 4) raw (off * 4) (if cfg.tcpOptBound then off * 4 else dlen) 20 with
+    match (if cfg.tcpOptBound then tcpParseOptsB (off * 4) raw (off * 4) (off * 4) 20
+           else tcpParseOpts (off * 4) raw (off * 4) 20) with
     | .fail => pure (.unparsed "tcp" raw)
     | .mptcp => pure (.foreign "mptcp" raw)
     | .ok os => pure (.tcp ⟨sport, dport, seq, ack, off, res, flags, win, csum, urg, os⟩ raw (.raw (raw.drop (off * 4))))
@@ -659,6 +660,7 @@ def Frame.toPkt : Frame → Pkt
   | .llc _ _ r _ => .unmodelled "llc" r
   | .arp h _ n => .arp h n.toPkt
   | .ipv4 h _ n => .ipv4 h n.toPkt
+  | .udp h _ (.foreign c r) => .unmodelled c r      -- C14 stops at a UDP port that selects an un-modelled parser
   | .udp h _ n => .udp h n.toPkt
   | .tcp h _ n => .tcp h n.toPkt
   | .icmp h _ n => .icmp h n.toPkt
